@@ -27,6 +27,21 @@ CHECKS = {
  "C07": ("serve_mc", "exhaustive fault enumeration: every entity-stream script with one fault (early end at every offset, Err at every chunk index, extra byte, extra chunk, endless stream) x response shapes x fault position",
          "Each faulty script is played to the real body; the first terminal event must be an error (never a clean end) for short/failing streams, the delivered bytes must be a correct prefix (multipart: parsed prefix, no closing delimiter), and nothing beyond the announced length is ever delivered.",
          "Range lengths {1,2,5} (thorough adds 100 and 70000); <= 4..5 events per stream.", "3/C07"),
+ "C08": ("stream_mc", "exhaustive enumeration of all operation histories (write/write_all/flush/poll/poll-until-pending/drop) up to a depth on the real BodyWriter + Body, reference model = byte vector and cursors checked after every operation",
+         "Every history up to depth 4..6 (by chunk size) over the full write-size alphabet 0..3c for c in {1,2,3,4} and boundary sizes for {7,4096,65536} is executed from the initial state; prefix property, non-empty frames, at-least-one-byte acceptance, flush availability (Pending only after everything flushed was delivered) and the clean end are checked at every step. States at depth D-1 vs D are reported to show saturation.",
+         "Depth-bounded; 'random long histories' of the quantifier are not used as evidence (saturation argument instead).", "3/C08"),
+ "C09": ("stream_mc", "exhaustive enumeration of write/flush/poll/drop histories x gzip levels 1..9 x chunk sizes x payload classes; independent gzip member parser + CRC-32 + streaming inflater as oracle",
+         "After every successful flush the streaming inflater, fed only the frames delivered so far, must reproduce everything written before it; after writer drop the body must be exactly one gzip member (header, final block, CRC-32, ISIZE, no trailing bytes) of the written bytes; chunk size 1 puts every header/trailer byte in its own frame.",
+         "Depth 3 (quick) / 4 (thorough). miniz_oxide::inflate is in the trusted base (thorough tier cross-checks distinct bodies with C zlib via python).", "3/C09"),
+ "C11": ("stream_mc+sched_mc", "exhaustive enumeration of histories with abort / body-drop at every position (raw and gzip writers), byte-counting allocator for queue release",
+         "After abort: next terminal event is the abort error (never clean end, never Pending), delivered bytes a prefix, is_end_stream false until delivered, later write/flush fail. After body drop: flush with unflushed bytes and chunk-completing writes fail, everything after the first error fails, the writer is told within write(c),flush,write,flush, and the queued chunks are released (live heap measured).",
+         "Sequential part depth 3..5; the concurrent part is C10's scheduler exploration (programs containing abort and consumer variants that drop the body).", "3/C11"),
+ "C16": ("neg_mc", "exhaustive enumeration of the Accept-Encoding list language (0..3/4 distinct codings x 11 weights x 4 whitespace styles) against an independent RFC 7231 5.3.4 evaluator; all short byte strings for the no-panic clause",
+         "should_gzip is compared with the evaluator on every enumerated grammatical value (identity default = least-preferred acceptable, qualities in thousandths); repeated codings, every byte string of length <= 5/6 over 12 symbols and every weight string of length <= 6 over {0,1,9,.} must not panic.",
+         "Upper-case codings / 'Q=' / duplicate codings: no claim (statement silent).", "3/C16"),
+ "C17": ("neg_mc+stream_mc", "exhaustive enumeration of Accept-Encoding values x gzip level 0..9 x chunk sizes x methods x request representation, real streaming_body + independent decoder",
+         "Vary names accept-encoding; Content-Encoding: gzip iff evaluator prefers gzip and level > 0; body sniffed: says gzip <=> exactly one gzip member of the payload, else payload verbatim; Request and Parts representations agree; HEAD same headers and no writer.",
+         "Accept-Encoding values: all C16 lists of <= 2 elements + 20 hand-picked; payloads {0, 300 bytes}.", "3/C17"),
  "C12": ("serve_mc+stream_mc", "per-step monitor (size_hint, is_end_stream sampled before every poll) attached to every execution of the C01, C06, C08, C09, C11 explorations, plus all Body::from conversions",
          "Retrospective check on every sample of every explored body: lower <= bytes still delivered <= upper on clean ends, exact hints for serve/Body::from bodies, is_end_stream never followed by bytes or an error, streaming body never at end while chunks or an abort are pending.",
          "Same bounds as the explorations it rides on.", "3/C12"),
@@ -75,6 +90,8 @@ def main():
             "add_only": True,
         },
         "engines": [
+            {"name": "stream_mc", "path": "/verif/harness/src/stream_mc.rs", "serves_properties": ["C08","C09","C11","C12","C17","C20"], "kind_free_text": "stateless exhaustive exploration of operation histories of the real streaming_body writer/body pair, byte-vector reference model, independent gzip decoder"},
+            {"name": "neg_mc", "path": "/verif/harness/src/neg_mc.rs", "serves_properties": ["C15","C16","C17"], "kind_free_text": "exhaustive enumeration of the Accept-Encoding language and of negotiated streaming_body configurations against an independent RFC 7231 evaluator"},
             {"name": "serve_mc", "path": "/verif/harness/src/serve_mc.rs", "serves_properties": ["C01","C02","C03","C04","C05","C06","C07","C12","C13","C14","C15","C20"], "kind_free_text": "stateless exhaustive exploration of the real serve(): requests x entities x scripted entity-stream answers, reference-model oracle (src/oracle)"},
         ],
         "checks": checks,
